@@ -16,7 +16,7 @@ ASSUMPTIONS = [
     "arithmetic per level, only the batched inverse FFT may round differently; bitwise-equal slices are counted",
     "duplicated level indices and tuples are outside 'any subset, list or array' and are not generated",
 ]
-MIN_NONTRIVIAL = {"quick": 150, "thorough": 3000}
+MIN_NONTRIVIAL = {"quick": 150, "thorough": 2000}
 TIMEOUT = {"quick": 900, "thorough": 3000}
 T = {"double": 1e-13, "single": 2e-6}
 
